@@ -12,11 +12,13 @@
     under the schedule controller, harness/lib_interp.c) through [step], comparing labels,
     CAS operands and the object's words before every step.
 
-    A thread has two activities: its own code ([main]) and, after it has saved its context in
-    a blocking call, the context-switch callback that runs on the worker it just left ([cb]:
-    enqueue on the sleep queue; for cond_wait then the whole unlock micro-program).  The two
-    can genuinely overlap: a signaller may dequeue and wake the thread while its callback is
-    still unlocking the mutex.
+    A thread has its own code ([main]) and, each time it has saved its context in a blocking
+    call, a context-switch callback that runs on the worker it just left (enqueue on the sleep
+    queue; for cond_wait then the whole unlock micro-program).  These activities genuinely
+    overlap: a signaller may dequeue and wake the thread while its callback is still unlocking
+    the mutex; the thread may then block again (a second callback, on another worker) while the
+    first is still in its unlock tail, and so on - [cbs] is the list of the thread's callbacks
+    in flight, oldest first, and [ECbTick i] steps the i-th of them.
 
     Sleep-queue enqueue / dequeue are one step each: they run under the queue's internal
     spinlock (modelled and proved separately); thread numbers are the program's thread tags. *)
@@ -40,7 +42,7 @@ Inductive op :=
 Inductive after_lock := ALRet | ALFe (s : Z).
 
 (** the unlock micro-program (runs in main context for Unlock / FeMS, in callback context
-    for cond_wait); [nf] counts failed attempts (it is unlock's return value) *)
+    for cond_wait); [nf] counts failed attempts (diagnostic only: unlock returns 0) *)
 Inductive upc :=
 | URead (nf : Z)
 | UCas1 (nf s : Z)
@@ -69,11 +71,10 @@ Inductive pc :=
 | Done (r : Z).
 
 Inductive cbpc :=
-| CbNone
 | CbEnq (q : qid) (unl : bool)
 | CbUnl (u : upc).
 
-Record thread := { main : pc; cb : cbpc; own : bool }.
+Record thread := { main : pc; cbs : list cbpc; own : bool }.
 
 Record state := {
   mword : Z;                   (* mutex->state = 2 * seats + lock bit *)
@@ -83,9 +84,9 @@ Record state := {
   thr : list thread
 }.
 
-Inductive ev := ECall (o : op) | ETick | ECbTick | ERet (v : Z).
+Inductive ev := ECall (o : op) | ETick | ECbTick (i : nat) | ERet (v : Z).
 
-Definition thread0 : thread := {| main := Idle; cb := CbNone; own := false |}.
+Definition thread0 : thread := {| main := Idle; cbs := []; own := false |}.
 
 Definition init_state (nthreads nconds : nat) : state :=
   {| mword := 0; mq := []; cqs := repeat [] nconds; festat := 0; thr := repeat thread0 nthreads |}.
@@ -117,9 +118,18 @@ Definition set_thr (s : state) (l : list thread) : state :=
 Definition get_thread (s : state) (t : nat) : option thread := nth_error (thr s) t.
 Definition set_thread (s : state) (t : nat) (x : thread) : state := set_thr s (upd (thr s) t x).
 
-Definition set_main (th : thread) (p : pc) : thread := {| main := p; cb := cb th; own := own th |}.
-Definition set_cb (th : thread) (c : cbpc) : thread := {| main := main th; cb := c; own := own th |}.
-Definition set_own (th : thread) (b : bool) : thread := {| main := main th; cb := cb th; own := b |}.
+Definition set_main (th : thread) (p : pc) : thread := {| main := p; cbs := cbs th; own := own th |}.
+Definition set_cbs (th : thread) (c : list cbpc) : thread := {| main := main th; cbs := c; own := own th |}.
+Definition set_own (th : thread) (b : bool) : thread := {| main := main th; cbs := cbs th; own := b |}.
+(** a new callback starts (the thread has just saved its context) *)
+Definition add_cb (th : thread) (c : cbpc) : thread := set_cbs th (cbs th ++ [c]).
+
+Fixpoint remove_nth {A} (l : list A) (i : nat) : list A :=
+  match l, i with
+  | [], _ => []
+  | _ :: r, O => r
+  | y :: r, S j => y :: remove_nth r j
+  end.
 
 (** wake thread [x]: it must be suspended (its context saved); it resumes at the top of lock *)
 Definition wake (s : state) (x : nat) : option state :=
@@ -213,7 +223,7 @@ Definition tick (s : state) (t : nat) : option state :=
         else put s (LockRead k)
     | LockCas2 k w =>
         if mword s =? w then
-          Some (set_thread (set_mword s (w + 2)) t (set_cb (set_main th (Susp k)) (CbEnq QM false)))
+          Some (set_thread (set_mword s (w + 2)) t (add_cb (set_main th (Susp k)) (CbEnq QM false)))
         else put s (LockRead k)
     | TryRead timed =>
         let w := mword s in
@@ -229,7 +239,7 @@ Definition tick (s : state) (t : nat) : option state :=
     | Unl u =>
         match ustep s t u with
         | Some (s', UNext u') => put s' (Unl u')
-        | Some (s', UFin nf) => put s' (Done nf)
+        | Some (s', UFin nf) => put s' (Done 0)           (* unlock returns 0; [nf] is diagnostic only *)
         | None => None
         end
     | SigDeq c k =>
@@ -251,32 +261,32 @@ Definition tick (s : state) (t : nat) : option state :=
         end
     | FeRead st =>
         if festat s =? st then put s (Done 0)
-        else Some (set_thread s t (set_cb (set_main th (Susp (ALFe st))) (CbEnq (QC (Z.to_nat st)) true)))
+        else Some (set_thread s t (add_cb (set_main th (Susp (ALFe st))) (CbEnq (QC (Z.to_nat st)) true)))
     | FeWrite st => put (set_festat s st) (SigDeq (Z.to_nat st) ASUnlock)
     | Idle | Susp _ | Done _ => None
     end
   end.
 
-(** callback-activity step of thread [t] *)
-Definition cbtick (s : state) (t : nat) : option state :=
+(** step of the [i]-th callback in flight of thread [t]; a finished callback leaves the list *)
+Definition cbtick (s : state) (t i : nat) : option state :=
   match get_thread s t with
   | None => None
   | Some th =>
-    match cb th with
-    | CbNone => None
-    | CbEnq q unl =>
+    match nth_error (cbs th) i with
+    | None => None
+    | Some (CbEnq q unl) =>
         let s1 := setq s q (getq s q ++ [t]) in
-        Some (set_thread s1 t (set_cb th (if unl then CbUnl (URead 0) else CbNone)))
-    | CbUnl u =>
+        Some (set_thread s1 t (set_cbs th (if unl then upd (cbs th) i (CbUnl (URead 0)) else remove_nth (cbs th) i)))
+    | Some (CbUnl u) =>
         match ustep s t u with
         | Some (s', UNext u') =>
             match get_thread s' t with
-            | Some th' => Some (set_thread s' t (set_cb th' (CbUnl u')))
+            | Some th' => Some (set_thread s' t (set_cbs th' (upd (cbs th') i (CbUnl u'))))
             | None => None
             end
         | Some (s', UFin _) =>
             match get_thread s' t with
-            | Some th' => Some (set_thread s' t (set_cb th' CbNone))
+            | Some th' => Some (set_thread s' t (set_cbs th' (remove_nth (cbs th') i)))
             | None => None
             end
         | None => None
@@ -284,14 +294,15 @@ Definition cbtick (s : state) (t : nat) : option state :=
     end
   end.
 
-(** a call is enabled only when the thread is idle and has no callback pending; the usage
-    contract (unlock / cond_wait / mark_and_signal only by the holder) is part of enabledness *)
+(** a call is enabled only when the thread is idle (older callbacks of the thread may still be
+    in flight on other workers); the usage contract (unlock / cond_wait / mark_and_signal only
+    by the holder) is part of enabledness *)
 Definition call (s : state) (t : nat) (o : op) : option state :=
   match get_thread s t with
   | None => None
   | Some th =>
-    match main th, cb th with
-    | Idle, CbNone =>
+    match main th with
+    | Idle =>
       let go p := Some (set_thread s t (set_main th p)) in
       match o with
       | Lock => if own th then None else go (LockRead ALRet)
@@ -299,13 +310,13 @@ Definition call (s : state) (t : nat) (o : op) : option state :=
       | TimedLock => go (TryRead true)
       | Unlock => if own th then go (Unl (URead 0)) else None
       | CondWait c =>
-          if own th then Some (set_thread s t (set_cb (set_main th (Susp ALRet)) (CbEnq (QC c) true))) else None
+          if own th then Some (set_thread s t (add_cb (set_main th (Susp ALRet)) (CbEnq (QC c) true))) else None
       | Signal c => go (SigDeq c ASRet)
       | Broadcast c => go (SigDeq c ASLoop)
       | FeWL st => if own th then None else go (LockRead (ALFe st))
       | FeMS st => if own th then go (FeWrite st) else None
       end
-    | _, _ => None
+    | _ => None
     end
   end.
 
@@ -333,22 +344,23 @@ Definition step (s : state) (a : nat * ev) : option state :=
   match e with
   | ECall o => call s t o
   | ETick => tick s t
-  | ECbTick => cbtick s t
+  | ECbTick i => cbtick s t i
   | ERet v => ret s t v
   end.
 
 (** the POINT id the activity executes at its next step ("" = none) *)
-Definition label (s : state) (t : nat) (in_cb : bool) : string :=
+Definition label (s : state) (t : nat) (in_cb : option nat) : string :=
   match get_thread s t with
   | None => ""
   | Some th =>
-    if in_cb then
-      match cb th with
-      | CbNone => ""
-      | CbEnq _ _ => "blockq.enq"
-      | CbUnl u => ulabel u
+    match in_cb with
+    | Some i =>
+      match nth_error (cbs th) i with
+      | None => ""
+      | Some (CbEnq _ _) => "blockq.enq"
+      | Some (CbUnl u) => ulabel u
       end
-    else
+    | None =>
       match main th with
       | LockRead _ => "mutex.lock.read"
       | LockCas1 _ _ => "mutex.lock.cas1"
@@ -362,20 +374,22 @@ Definition label (s : state) (t : nat) (in_cb : bool) : string :=
       | FeWrite _ => "fe.status.write"
       | Idle | Susp _ | Done _ => ""
       end
+    end
   end%string.
 
 (** the value the hook reports (CAS operand, thread handed over, status); None = not compared *)
-Definition lval (s : state) (t : nat) (in_cb : bool) : option Z :=
+Definition lval (s : state) (t : nat) (in_cb : option nat) : option Z :=
   match get_thread s t with
   | None => None
   | Some th =>
-    if in_cb then
-      match cb th with
-      | CbEnq _ _ => Some (Z.of_nat t)
-      | CbUnl u => uval u
-      | CbNone => None
+    match in_cb with
+    | Some i =>
+      match nth_error (cbs th) i with
+      | Some (CbEnq _ _) => Some (Z.of_nat t)
+      | Some (CbUnl u) => uval u
+      | None => None
       end
-    else
+    | None =>
       match main th with
       | LockCas1 _ w | LockCas2 _ w | TryCas _ w => Some w
       | Unl u => uval u
@@ -383,20 +397,27 @@ Definition lval (s : state) (t : nat) (in_cb : bool) : option Z :=
       | FeRead st | FeWrite st => Some st
       | _ => None
       end
+    end
   end.
 
 (** which sleep queue the next step of the activity touches (for the trace comparison) *)
-Definition lqueue (s : state) (t : nat) (in_cb : bool) : option qid :=
+Definition lqueue (s : state) (t : nat) (in_cb : option nat) : option qid :=
   match get_thread s t with
   | None => None
   | Some th =>
-    if in_cb then match cb th with CbEnq q _ => Some q | CbUnl _ => Some QM | CbNone => None end
-    else match main th with
-         | SigDeq c _ | SigPush c _ _ => Some (QC c)
-         | Idle | Susp _ | Done _ => None
-         | _ => Some QM
-         end
+    match in_cb with
+    | Some i => match nth_error (cbs th) i with Some (CbEnq q _) => Some q | Some (CbUnl _) => Some QM | None => None end
+    | None => match main th with
+              | SigDeq c _ | SigPush c _ _ => Some (QC c)
+              | Idle | Susp _ | Done _ => None
+              | _ => Some QM
+              end
+    end
   end.
+
+(** number of callbacks of [t] in flight (the trace validator maps workers to list positions) *)
+Definition ncbs (s : state) (t : nat) : nat :=
+  match get_thread s t with Some th => List.length (cbs th) | None => O end.
 
 (** ---- derived notions used by the theorems ---- *)
 
@@ -409,4 +430,4 @@ Definition count_holders (s : state) : nat :=
   List.length (filter own (thr s)).
 
 Definition asleep (th : thread) : bool :=
-  match main th, cb th with Susp _, CbNone => true | _, _ => false end.
+  match main th, cbs th with Susp _, [] => true | _, _ => false end.
